@@ -154,7 +154,8 @@ def handle : List String → Verdict
       | some ps =>
         let mAttr := safeScript fn ps
         let mInl := safeScriptInline fn ps
-        let hasExpr := ps.any fun p => match p with | .expr _ => true | _ => false
+        -- (an empty expression writes nothing: it stands for an argument encoding/json could not encode)
+        let hasExpr := ps.any fun p => match p with | .expr b => !b.isEmpty | _ => false
         -- property: the attribute form has no double quote and decodes to the inline form; without JSExpression
         -- parameters the inline form cannot end a script element
         let ok := !attr.contains 34 && !attr.contains 60 && Html.decodeRefs attr == inl && (hasExpr || scriptDataSafe inl)
